@@ -23,6 +23,7 @@ import IcontractModel.Lemmas.ReevalMain
 import IcontractModel.Lemmas.ReprLines
 import IcontractModel.Lemmas.ReevalCounterexamples
 import IcontractModel.Lemmas.Lookup
+import IcontractModel.Lemmas.CondLookup
 import IcontractModel.AllTrace
 namespace Icontract.Ex
 
@@ -188,6 +189,112 @@ theorem C06_names_resolve_as_in_python (ls : List (List (String × Val))) (n : S
   simp only [lookupT] at h
   rw [lookup_pyScope]
   exact h
+
+/-- the table of a call looks a name up in the condition's own look-up, then the closure, then the globals -/
+theorem lookupT_ofCall (params : List CondParam) (kwargs closure globals : List (String × Val)) (n : String) :
+    lookupT (Tbl.ofCall params kwargs closure globals) n =
+      (match lookup (condLookup params kwargs) n with
+       | some v => some v
+       | none => (match lookup closure n with
+                  | some v => some v
+                  | none => lookup globals n)).map some := by
+  unfold Tbl.ofCall
+  rw [C06_names_resolve_as_in_python]
+  simp only [pyScope, List.flatten_cons, List.flatten_nil, List.append_nil]
+  rw [lookup_append, lookup_append]
+  rfl
+
+/-- **The name table of a call is Python's scoping of the condition**: for every condition (parameters with and without
+defaults), every set of arguments of the decorated function's call - also arguments the condition does not take, named
+like its closure variables or globals -, every closure and every module, each name means to the re-evaluator what it
+means to Python: a parameter is the argument passed for it, else its default; any other name is the closure variable,
+else the global. -/
+theorem C06_call_names_resolve_as_in_python (params : List CondParam) (kwargs closure globals : List (String × Val))
+    (n : String) (hnodup : (params.map (·.1)).Nodup)
+    (hbound : ∀ q ∈ params, q.2 = none → (lookup kwargs q.1).isSome) :
+    lookupT (Tbl.ofCall params kwargs closure globals) n = (pyResolve params kwargs closure globals n).map some := by
+  rw [lookupT_ofCall, lookup_condLookup params kwargs n hnodup]
+  unfold pyResolve
+  cases hf : params.find? (fun q => q.1 == n) with
+  | none => rfl
+  | some q =>
+    simp only
+    cases hk : lookup kwargs n with
+    | some v => rfl
+    | none =>
+      simp only
+      cases hq : q.2 with
+      | some d => rfl
+      | none =>
+        have hmem := List.mem_of_find?_eq_some hf
+        have hqn : q.1 = n := by
+          simpa using List.find?_some (p := fun (q : CondParam) => q.1 == n) hf
+        have := hbound q hmem hq
+        rw [hqn, hk] at this
+        simp at this
+
+/-- an argument of the call which the condition does not take never shadows the condition's closure / global variable of
+that name (the defect repaired by e84b442) ... -/
+theorem C06_foreign_arguments_do_not_shadow (params : List CondParam) (kwargs kwargs' closure globals : List (String × Val))
+    (n : String) (hn : params.all (fun q => q.1 != n) = true) :
+    lookupT (Tbl.ofCall params kwargs closure globals) n = lookupT (Tbl.ofCall params kwargs' closure globals) n := by
+  have hne : ∀ q ∈ params, q.1 ≠ n := by
+    intro q hq
+    have := List.all_eq_true.mp hn q hq
+    simpa using this
+  rw [lookupT_ofCall, lookupT_ofCall, lookup_condLookup_foreign params kwargs n hne,
+    lookup_condLookup_foreign params kwargs' n hne]
+
+/-- ... and a parameter of the condition's own which the call does not supply is known with its default value (the defect
+repaired by dece18e) -/
+theorem C06_defaults_are_visible (params : List CondParam) (kwargs closure globals : List (String × Val))
+    (n : String) (d : Val) (hnodup : (params.map (·.1)).Nodup) (hp : (n, some d) ∈ params) (hk : lookup kwargs n = none) :
+    lookupT (Tbl.ofCall params kwargs closure globals) n = some (some d) := by
+  rw [lookupT_ofCall, lookup_condLookup params kwargs n hnodup]
+  have hf : params.find? (fun q => q.1 == n) = some (n, some d) := by
+    cases hf : params.find? (fun q => q.1 == n) with
+    | none =>
+      have := List.find?_eq_none.mp hf (n, some d) hp
+      simp at this
+    | some q =>
+      have hmem := List.mem_of_find?_eq_some hf
+      have hqn : q.1 = n := by
+        simpa using List.find?_some (p := fun (q : CondParam) => q.1 == n) hf
+      obtain ⟨k, d?⟩ := q
+      simp only at hqn
+      subst hqn
+      -- two entries with the same name in a list with distinct names are the same entry
+      have : ∀ (ps : List CondParam), (ps.map (·.1)).Nodup → (k, d?) ∈ ps → (k, some d) ∈ ps → d? = some d := by
+        intro ps
+        induction ps with
+        | nil => intro _ h; cases h
+        | cons x ps ih =>
+          intro hnd h1 h2
+          rw [List.map_cons, List.nodup_cons] at hnd
+          rcases List.mem_cons.mp h1 with e1 | m1
+          · rcases List.mem_cons.mp h2 with e2 | m2
+            · rw [← e1] at e2
+              exact (Prod.mk.inj e2).2.symm
+            · exact absurd (List.mem_map.mpr ⟨(k, some d), m2, by rw [← e1]⟩) hnd.1
+          · rcases List.mem_cons.mp h2 with e2 | m2
+            · exact absurd (List.mem_map.mpr ⟨(k, d?), m1, by rw [← e2]⟩) hnd.1
+            · exact ih hnd.2 m1 m2
+      rw [this params hnodup hmem hp]
+  rw [hf]
+  simp only [hk]
+  rfl
+
+/-- the table as upstream built it - every argument of the call a variable of the condition, no defaults - was not Python's
+scoping: `lambda x, lower=0: x > y + lower` on `def f(x, y)` called `f(5, 1)` with a global `y = 100` -/
+theorem C06_upstream_table_was_not_pythons :
+    let params : List CondParam := [("x", none), ("lower", some (.int 0))]
+    let kwargs : List (String × Val) := [("x", .int 5), ("y", .int 1)]
+    let globals : List (String × Val) := [("y", .int 100)]
+    lookupT (Tbl.ofCallUpstream kwargs [] globals) "y" = some (some (.int 1)) ∧ pyResolve params kwargs [] globals "y" = some (.int 100) ∧
+    lookupT (Tbl.ofCallUpstream kwargs [] globals) "lower" = none ∧ pyResolve params kwargs [] globals "lower" = some (.int 0) ∧
+    lookupT (Tbl.ofCall params kwargs [] globals) "y" = some (some (.int 100)) ∧
+    lookupT (Tbl.ofCall params kwargs [] globals) "lower" = some (some (.int 0)) := by
+  refine ⟨?_, ?_, ?_, ?_, ?_, ?_⟩ <;> rfl
 
 /-- non-vacuity: a name bound in all three look-ups -/
 example : lookupT (Tbl.ofLookups [[("x", .int 1)], [("x", .int 2), ("c", .int 5)], [("x", .int 3), ("c", .int 6), ("g", .int 7)]]) "c"
